@@ -17,7 +17,12 @@
       path [slow_correct_q] (parse_mantissa, the MAX_DIGITS truncation argument, positive / negative
       digit comparison, capacity of the 62-limb buffer) -> final rounding (props/C18.v); exponents beyond
       +-2^29 incl. saturation at the i32 limits: [parse_float_far_small/large/zero].
-    The model is tied to /repo by the correspondence harness on every run (see DESIGN.md 4). *)
+    The model is tied to /repo by the correspondence harness on every run (see DESIGN.md 4).
+    SOURCE TIE (tools/rs2coq): the functions named below are ALSO regenerated from the Rust source on every
+    run by a syn-based translator (coq/gen/Src.v) and proved EQUAL to the hand-written model functions the
+    theorems above are about ([rs_*_eq], proofs/SrcEquiv*.v) - for all inputs and both build modes; a change to
+    that Rust code changes the generated file and breaks these equalities.
+    Here: is_fast_path, try_fast_path (number.rs); scientific_exponent (slow.rs); and through props/C11.v, C17.v, C18.v both extended-precision stages, the float helpers and the rounding primitive.  parse.rs (iterators), parse_mantissa (macros), bigint.rs and the vectors are tied by the correspondence harness only. *)
 
 From Coq Require Import ZArith QArith Qabs List Bool Reals Qreals.
 From Coq Require Import Floats.SpecFloat.
@@ -25,7 +30,7 @@ From Flocq Require Import Core.Core.
 From ML Require Import base.RustSem model.Fmt model.Num model.Number model.Parse model.Lemire model.Bellerophon model.Vec model.Bigint model.Slow model.Top
   spec.Decimal spec.Round spec.RoundFacts spec.DigitsSuffice gen.Consts gen.Tables gen.BTables gen.PowDump
   proofs.ParseFacts proofs.FastPathFacts proofs.EndToEnd proofs.EndToEnd2 proofs.EndToEnd3 proofs.EndToEnd4 proofs.EndToEnd5 proofs.EndToEnd6 proofs.EndToEnd7
-  proofs.LemireFacts6 proofs.Glue proofs.TruncFacts proofs.TruncFacts2 proofs.SlowFacts1 proofs.DeepFallback proofs.DeepFallback2 proofs.Final.
+  proofs.LemireFacts6 proofs.Glue proofs.TruncFacts proofs.TruncFacts2 proofs.SlowFacts1 proofs.DeepFallback proofs.DeepFallback2 proofs.Final gen.Src proofs.SrcEquiv proofs.SrcEquiv2.
 Import ListNotations.
 
 Open Scope Z_scope.
@@ -201,6 +206,19 @@ Theorem C02_parse_float_compact_declined_correct :
          exp fp < 0 -> PF c f b i fr e = Ok (RN f (dec_value i fr e)).
 Proof. exact parse_float_compact_declined_correct. Qed.
 
+Theorem C02_rs_try_fast_path_eq :
+  forall (c : config) (T : tables) (f : format) (b : build) (n : number),
+         rs_try_fast_path c T f b n = try_fast_path c T f b n.
+Proof. exact rs_try_fast_path_eq. Qed.
+
+Theorem C02_rs_is_fast_path_eq :
+  forall (f : format) (b : build) (n : number), rs_is_fast_path f b n = Ok (is_fast_path f n).
+Proof. exact rs_is_fast_path_eq. Qed.
+
+Theorem C02_rs_scientific_exponent_eq :
+  forall (b : build) (n : number), rs_scientific_exponent b n = scientific_exponent b n.
+Proof. exact rs_scientific_exponent_eq. Qed.
+
 
 Print Assumptions C02_sfmt_ok_F32.
 Print Assumptions C02_C02_final.
@@ -221,3 +239,6 @@ Print Assumptions C02_parse_float_lemire_definite_correct.
 Print Assumptions C02_parse_float_lemire_declined_correct.
 Print Assumptions C02_parse_float_compact_definite_correct.
 Print Assumptions C02_parse_float_compact_declined_correct.
+Print Assumptions C02_rs_try_fast_path_eq.
+Print Assumptions C02_rs_is_fast_path_eq.
+Print Assumptions C02_rs_scientific_exponent_eq.
